@@ -146,8 +146,7 @@ Proof.
   rewrite encode_varint_length by lia. unfold nbytes. unfold two32 in Hk. change (2 ^ 32) with 4294967296 in Hk.
   change (2 ^ 7) with 128. change (2 ^ 14) with 16384. change (2 ^ 21) with 2097152. change (2 ^ 28) with 268435456.
   change (2 ^ 35) with 34359738368.
-  repeat match goal with |- context [if ?c then _ else _] => destruct (Z.ltb_spec (key_of tag Varint) 128) end.
-  all: repeat match goal with |- context [if key_of tag Varint <? ?k then _ else _] => destruct (Z.ltb_spec (key_of tag Varint) k) end; lia.
+  repeat match goal with |- context [if key_of tag Varint <? ?k then _ else _] => destruct (Z.ltb_spec (key_of tag Varint) k) end; lia.
 Qed.
 
 Lemma encode_key_dbg_ok tag wt : tag_ok tag -> encode_key_dbg tag wt = inl (encode_key tag wt).
